@@ -8,11 +8,11 @@ from lib import gpgen
 from py2v import gen
 
 PROP = "C04"
-PROPS_FILES = ["Props/C04_kernels.v", "Props/C04_acq.v", "Props/C04_gp.v", "Props/C04_poly.v", "Props/C04_handir.v"]
+PROPS_FILES = ["Props/C04_kernels.v", "Props/C04_acq.v", "Props/C04_gp.v", "Props/C04_poly.v", "Props/C04_handir.v", "Props/C04_acq_gauss.v"]
 ASSUMPTIONS = [
   "real arithmetic (Coq R, Coquelicot is_derive); rounding outside the model",
   "log marginal likelihood gradient is PARTIAL: Jacobi's formula d log det K = tr(K^-1 dK) and d(r' K^-1 r) = -(a' dK a) are hypotheses (no determinant calculus over R available)",
-  "EI gradient is proved where the clamp max(0, .) is inactive (z Phi(z) + pdf(z) > 0, which holds for all z mathematically; the tail fact is an assumption)",
+  "EI gradient: the clamp max(0, .) is never active (z Phi(z) + pdf(z) > 0 for all z, proved from the Gaussian tail in Lib/Gauss.v / Proofs/AcqGauss.v), so the generated gradient is the derivative unconditionally (Props/C04_acq_gauss.v)",
   "logistic success probability: gradient proved below the exponent cap (kappa (mean - threshold) < 40)",
   "the product-model gradient and the likelihood-gradient loop, written by hand in the first rounds, are now also TRANSLATED from the source loops (range loops, boolean masks, per-element stores) and the hand-written forms are proved equal to the translated ones (Props/C04_handir.v)",
   "C0 Matern has no gradient in the library (not a DifferentiableCovariance)",
@@ -23,7 +23,7 @@ LEVEL_TEXT = ("Coquelicot is_derive theorems stated on the value/gradient pairs 
               "(symmetric K^-1, translation invariance), EI, augmented penalty, product rule for penalised EI, logistic / CDF / product success "
               "probabilities (n-factor product rule by induction), cost-scaled multitask quotient rule, Parzen ratio, log-likelihood (partial) in linear "
               "and log parameterisation; joint entry points are projections of the same terms; Richardson finite-difference search on the running code")
-LEVEL_NOTE = ("likelihood gradient partial (Jacobi assumed); clamps/caps as stated; translator trusted after self-check; axioms: standard-library "
+LEVEL_NOTE = ("likelihood gradient partial (Jacobi assumed); the EI clamp is proved inactive, the logistic cap as stated; translator trusted after self-check; axioms: standard-library "
               "real-number axioms (sig_not_dec, sig_forall_dec, functional_extensionality_dep, classic)")
 TECHNIQUE = "Coquelicot derivative proofs on value/gradient pairs regenerated from source (translator) + Richardson finite-difference search"
 DESIGN_REF = "DESIGN.md section 7, C04"
